@@ -743,6 +743,10 @@ impl PackageBuilder {
                 let header = payload::stripped_cpio_header(file_index as u32);
                 archive.write_all(&header)?;
                 archive.write_all(&content)?;
+                // file data is padded to a multiple of 4 bytes, as for regular entries
+                if let Some(pad) = payload::pad(content.len()) {
+                    archive.write_all(&pad)?;
+                }
                 archive.flush()?;
             };
 
